@@ -8,7 +8,7 @@ import (
 // call on that election begins.
 func OracleC07(tr *Trace) Verdict {
 	p := tr.Plan
-	v := Verdict{Premise: p.FaultFree() && p.MaxRTT() < p.H/2 && !p.AnyTakeover()}
+	v := Verdict{Premise: p.FaultFree() && p.MaxRTT() < p.H/2 && !p.PreemptionPossible()}
 	if !v.Premise {
 		return v
 	}
